@@ -104,9 +104,13 @@ def run_shard(shard, tier, seed, wd, res):
     n = EN.SIZES[(g, comp)]
     q = tier == "quick"
 
+    again = []
+
     def emit(b):
         for op in ops:
             s.op(op, V.b(bytes(b)))
+        if rng.random() < 0.2:
+            again.append(bytes(b))
 
     if part == "flags":
         for tag, P in candidates(g, rng, 2 if q else 6):
@@ -180,6 +184,12 @@ def run_shard(shard, tier, seed, wd, res):
             bit = rng.randrange(n * 8)
             b[bit // 8] ^= 0x80 >> (bit % 8)
             emit(b)
+    # a sample of the strings is decoded a second (and third) time later in the same process: the verdict on a byte string
+    # must not depend on earlier calls
+    for b in again:
+        for op in ops:
+            s.op(op, V.b(b))
+        s.op(ops[0], V.b(b))
     # thorough tier: a share of the hostile strings also runs under AddressSanitizer ("never panics / no invalid access")
     builds = BUILDS + (("asan",) if tier == "thorough" and shard["idx"] % 8 == 0 else ())
     H.monitor_script(__import__("props.c04", fromlist=["x"]), s.text(), builds, wd, res, shard)
